@@ -255,8 +255,26 @@ func encode(m *macaroon.Macaroon) string {
 func alter(r *sim.Run, src *issued, secrets [][]byte) *issued {
 	t := r.T
 	nt := &issued{secret: src.secret, key: src.key, server: src.server, user: src.user, at: src.at, life: src.life, altered: true}
-	kind := t.Intn(11)
+	kind := t.Intn(12)
 	switch kind {
+	case 11: // many unknown caveats appended at once (any holder can; counters and bit sets have widths)
+		m, err := decode(src.token)
+		if err != nil {
+			return nil
+		}
+		n := sim.Pick(t, []int{2, 7, 8, 16, 31, 32, 33, 64, 96, 128, 255, 256, 257})
+		same := t.Bool()
+		for i := 0; i < n; i++ {
+			cav := "note = x"
+			if !same {
+				cav = fmt.Sprintf("note = %d", i)
+			}
+			if err := m.AddFirstPartyCaveat([]byte(cav)); err != nil {
+				return nil
+			}
+		}
+		nt.token = encode(m)
+		nt.how = fmt.Sprintf("caveat_unknown_many:%d", n)
 	case 10: // minted under the right secret with a near miss in place of one required caveat
 		o, err := decode(src.token)
 		if err != nil {
